@@ -2,7 +2,11 @@
 //!
 //! Accepted: literals, paths, field access, struct literals of the known types, `if`/`else`, `match` on tuples / Options / enums
 //! with or-patterns and guards, `let`, assignments to locals and to fields of locals (state passing), a whitelist of methods,
-//! `as usize` on bool, early `return`s, the `for x in it { lets; if c { return e; } }` search loop, `matches!`.
+//! `as usize` on bool, `usize as f32` (`Num.ofNat`), early `return`s, the `for x in it { lets; if c { return e; } }` search loop,
+//! `matches!`, destructuring assignment `(a, b) = e` to locals, `f(&mut x, …);` for a translated `f` with a `&mut` first parameter,
+//! type parameters of a generic `impl<T>` kept abstract (`Ty::Var`, the Lean definition is polymorphic), trait constants
+//! (`T::ZERO`, `Size::MAX_CONTENT`, `auto::<Self>()`), the length constructors `X(CompactLength::length(v))` ↦ `.length v` … and,
+//! per function and named in the generated doc comment, `usize - usize` as truncated subtraction.
 //! Everything else is an error; the caller decides whether that is fatal (required function) or a comment.
 use crate::lean::{ident, AdtKind, FnSig, Ty, World, L};
 use crate::util::CfgEnv;
@@ -39,6 +43,12 @@ pub struct Ctx<'a> {
     /// payload variable while inside an arm of the tag-match shape
     pub(crate) tag_payload: Option<Option<String>>,
     pub(crate) fresh: usize,
+    /// per-function opt-in: `usize - usize` is translated as truncated subtraction (`Gen.usizeSubTrunc`); the generated
+    /// definition then agrees with Rust only where no underflow occurs (Rust: panic in debug builds, wrap in release)
+    pub trunc_sub: bool,
+    pub used_trunc_sub: bool,
+    /// the local that plays the role of `self` for the state-passing return (a `&mut` first parameter of a free function)
+    pub mut_param: Option<String>,
 }
 
 pub fn expr_attrs_pub(e: &Expr) -> &[syn::Attribute] {
@@ -83,6 +93,9 @@ impl<'a> Ctx<'a> {
             dropped: vec![],
             tag_payload: None,
             fresh: 0,
+            trunc_sub: false,
+            used_trunc_sub: false,
+            mut_param: None,
         }
     }
 
@@ -103,6 +116,7 @@ impl<'a> Ctx<'a> {
             syn::Type::Path(p) if p.qself.is_none() => {
                 let seg = p.path.segments.last().unwrap();
                 let name = seg.ident.to_string();
+                let name = self.w.aliases.get(&name).cloned().unwrap_or(name);
                 let args: Vec<Ty> = match &seg.arguments {
                     syn::PathArguments::None => vec![],
                     syn::PathArguments::AngleBracketed(a) => a
@@ -162,6 +176,9 @@ impl<'a> Ctx<'a> {
                         Ok((L::a("0"), Ty::F32))
                     } else if v == 1.0 {
                         Ok((L::a("1"), Ty::F32))
+                    } else if v == 2.0 {
+                        // `2.0_f32 == 1.0_f32 + 1.0_f32` exactly; the models write `Num.two` (= `1 + 1`)
+                        Ok((L::a("Num.two"), Ty::F32))
                     } else if v.fract() == 0.0 && v > 0.0 && v < 1e6 {
                         Ok((L::app("Num.ofNat", vec![L::A(format!("{}", v as u64))]), Ty::F32))
                     } else {
@@ -242,6 +259,8 @@ impl<'a> Ctx<'a> {
                 let (v, vt) = self.expr(&c.expr, &Ty::Unknown)?;
                 match (&vt, &to) {
                     (Ty::Bool, Ty::Nat) => Ok((L::app("Bool.toNat", vec![v]), Ty::Nat)),
+                    // `usize as f32`: round-to-nearest conversion = `Num.ofNat` (`Float32.ofNat` at Float32, the embedding at Rat)
+                    (Ty::Nat, Ty::F32) => Ok((L::app("Num.ofNat", vec![v]), Ty::F32)),
                     (Ty::Nat, Ty::Nat) => Err("integer-to-integer cast (width not tracked)".into()),
                     _ => Err(format!("unsupported cast `{}`", quote::quote!(#c))),
                 }
@@ -309,7 +328,9 @@ impl<'a> Ctx<'a> {
         }
     }
 
+    /// `ty_name = None`: an unqualified variant name (brought in by `use`); accepted only when exactly one registered enum has it
     pub(crate) fn variant_lookup(&self, ty_name: Option<&str>, var: &str) -> Option<(String, Ty, Vec<Ty>)> {
+        let mut found = vec![];
         for a in &self.w.adts {
             if let Some(t) = ty_name {
                 if a.rust != t {
@@ -318,11 +339,15 @@ impl<'a> Ctx<'a> {
             }
             if let AdtKind::Enum(vs) = &a.kind {
                 if let Some(v) = vs.iter().find(|v| v.rust == var) {
-                    return Some((format!("{}.{}", a.lean, v.lean), Ty::Adt(a.rust.clone(), vec![]), v.args.clone()));
+                    found.push((format!("{}.{}", a.lean, v.lean), Ty::Adt(a.rust.clone(), vec![]), v.args.clone()));
                 }
             }
         }
-        None
+        if found.len() == 1 {
+            found.pop()
+        } else {
+            None
+        }
     }
 
     /// the type named by the first segment of a two-segment path
@@ -333,6 +358,7 @@ impl<'a> Ctx<'a> {
         if let Some(t) = self.generics.get(s) {
             return Some(t.clone());
         }
+        let s = self.w.aliases.get(s).map(|x| x.as_str()).unwrap_or(s);
         match s {
             "f32" => Some(Ty::F32),
             "Option" => Some(Ty::opt(Ty::Unknown)),
@@ -348,6 +374,23 @@ impl<'a> Ctx<'a> {
                 (L::A(l.clone()), t.clone())
             }
         })
+    }
+
+    /// a translated trait constant `<head as Trait>::name` (registered as `Trait::name`), type-compatible with `expect`;
+    /// refused when two traits provide the name for that head
+    fn trait_const(&self, head: &str, name: &str, expect: &Ty) -> Option<(L, Ty)> {
+        let suffix = format!("::{name}");
+        // keys: `Trait::NAME`, or `Trait::NAME@inst` for a generic impl instantiated more than once
+        let mut found: Vec<&String> =
+            self.w.consts.iter().filter(|((h, k), (_, t, _))| h == head && k.split('@').next().unwrap().ends_with(&suffix) && t.compatible(expect)).map(|((_, k), _)| k).collect();
+        found.sort();
+        found.dedup();
+        if found.len() == 1 {
+            let k = found[0].clone();
+            self.const_ref(head, &k)
+        } else {
+            None
+        }
     }
 
     fn path_expr(&mut self, p: &syn::ExprPath, expect: &Ty) -> R<(L, Ty)> {
@@ -394,13 +437,17 @@ impl<'a> Ctx<'a> {
                     }
                 }
                 if self.generics.contains_key(tname) {
-                    // `T::ZERO` with `T: TaffyZero`
-                    if let Some(c) = self.const_ref(&head, &format!("TaffyZero::{name}")) {
+                    // `T::ZERO` with `T: TaffyZero` (and the other constant traits of style_helpers.rs)
+                    if let Some(c) = self.trait_const(&head, name, expect) {
                         return Ok(c);
                     }
                 }
                 if let Some((l, ct)) = self.const_ref(&head, name) {
                     return Ok((l, ct));
+                }
+                // `Size::MAX_CONTENT`: no inherent constant of that name, a translated trait constant of a type-compatible instance
+                if let Some(c) = self.trait_const(&head, name, expect) {
+                    return Ok(c);
                 }
             }
         }
@@ -475,6 +522,10 @@ impl<'a> Ctx<'a> {
             (BinOp::Sub(_), Ty::F32) => Ok((L::Bin("-".into(), bx(l), bx(r)), lt)),
             (BinOp::Mul(_), Ty::F32 | Ty::Nat) => Ok((L::Bin("*".into(), bx(l), bx(r)), lt)),
             (BinOp::Div(_), Ty::F32) => Ok((L::Bin("/".into(), bx(l), bx(r)), lt)),
+            (BinOp::Sub(_), Ty::Nat) if self.trunc_sub => {
+                self.used_trunc_sub = true;
+                Ok((L::app("Gen.usizeSubTrunc", vec![l, r]), lt))
+            }
             (BinOp::Sub(_) | BinOp::Div(_), Ty::Nat) => Err("unsigned subtraction/division (can overflow / panic) is outside the fragment".into()),
             (BinOp::Lt(_), Ty::F32) => Ok((L::app("Num.flt", vec![l, r]), Ty::Bool)),
             (BinOp::Gt(_), Ty::F32) => Ok((L::app("Num.fgt", vec![l, r]), Ty::Bool)),
@@ -554,6 +605,14 @@ impl<'a> Ctx<'a> {
         let name = segs.last().unwrap().clone();
         let args: Vec<&Expr> = c.args.iter().collect();
         if segs.len() == 1 {
+            if args.len() == 1 {
+                let lt = if name == "Self" { self.self_ty.clone() } else { self.type_of_segment(&name) };
+                if let Some(Ty::Adt(an, _)) = &lt {
+                    if let Some(AdtKind::Length(vs)) = self.w.adt(an).map(|a| a.kind.clone()) {
+                        return self.length_ctor(an, &vs, args[0]);
+                    }
+                }
+            }
             if name == "Some" && args.len() == 1 {
                 let inner = match expect {
                     Ty::Opt(t) => (**t).clone(),
@@ -564,10 +623,14 @@ impl<'a> Ctx<'a> {
             }
             // `zero::<X>()`
             if let syn::PathArguments::AngleBracketed(ab) = &p.path.segments[0].arguments {
-                if name == "zero" && args.is_empty() && ab.args.len() == 1 {
+                if (name == "zero" || name == "auto") && args.is_empty() && ab.args.len() == 1 {
                     if let syn::GenericArgument::Type(t) = &ab.args[0] {
                         let ty = self.rust_ty(t)?.join(expect);
-                        return self.trait_zero(&ty);
+                        if name == "zero" {
+                            return self.trait_zero(&ty);
+                        }
+                        // `auto::<X>()` is `<X as TaffyAuto>::AUTO` (the module that translates it has compared the helper's body)
+                        return self.trait_const(&ty.head(), "AUTO", &ty).ok_or(format!("no translated `TaffyAuto::AUTO` for {:?}", ty));
                     }
                 }
                 return Err(format!("unsupported generic call `{}`", quote::quote!(#c)));
@@ -579,6 +642,9 @@ impl<'a> Ctx<'a> {
             }
             if let Some(sigs) = self.w.fns.get(&("".to_string(), name.clone())) {
                 let sig = sigs[0].clone();
+                if sig.mut_first {
+                    return Err(format!("`{name}` updates its first argument: only usable as a call statement"));
+                }
                 let ls = self.args_of(&sig, &args, &name)?;
                 return Ok((self.apply_sig(&sig, ls), sig.ret.clone()));
             }
@@ -593,11 +659,11 @@ impl<'a> Ctx<'a> {
             }
         }
         if let Some(sigs) = self.w.fns.get(&(head.clone(), name.clone())) {
-            let t = t.join(expect);
+            // overloads by instantiation (`Rect::zero()` at f32 / at a style length): the expected type selects
             for sig in sigs.clone() {
                 match &sig.self_ty {
                     None => {
-                        if sig.params.len() + sig.dropped != args.len() || !(sig.ret.compatible(&t) || !t.compatible(&sig.ret)) {
+                        if sig.params.len() + sig.dropped != args.len() || !sig.ret.compatible(expect) {
                             continue;
                         }
                         let ls = self.args_of(&sig, &args, &format!("{head}::{name}"))?;
@@ -621,12 +687,45 @@ impl<'a> Ctx<'a> {
         Err(format!("call of untranslated function `{}`", segs.join("::")))
     }
 
+    /// constructor side of the abstract lengths: `X(CompactLength::length(v))` ↦ `.length v`, `X(CompactLength::percent(v))` ↦
+    /// `.percent v`, `X(CompactLength::auto())` / `X(CompactLength::AUTO)` ↦ `.auto`, `X(CompactLength::ZERO)` ↦ `.length 0`
+    fn length_ctor(&mut self, an: &str, variants: &[(String, String, bool)], arg: &Expr) -> R<(L, Ty)> {
+        if !self.w.length_ctors_checked {
+            return Err("length constructor before the `CompactLength` constructors were compared with the source".into());
+        }
+        let lean = self.w.adt(an).unwrap().lean.clone();
+        let ty = Ty::Adt(an.to_string(), vec![]);
+        let has = |c: &str| variants.iter().any(|v| v.1 == c);
+        let (ctor, payload): (&str, Option<L>) = match strip(arg) {
+            Expr::Path(p) => match path_segs(&p.path).iter().map(|s| s.as_str()).collect::<Vec<_>>().as_slice() {
+                ["CompactLength", "ZERO"] => ("length", Some(L::a("0"))),
+                ["CompactLength", "AUTO"] => ("auto", None),
+                _ => return Err(format!("unrecognised length payload `{}`", quote::quote!(#arg))),
+            },
+            Expr::Call(c) => {
+                let f = match &*c.func {
+                    Expr::Path(p) => path_segs(&p.path),
+                    _ => return Err("unrecognised length payload".into()),
+                };
+                let a: Vec<&Expr> = c.args.iter().collect();
+                match (f.iter().map(|s| s.as_str()).collect::<Vec<_>>().as_slice(), a.len()) {
+                    (["CompactLength", "length"], 1) => ("length", Some(self.expr(a[0], &Ty::F32)?.0)),
+                    (["CompactLength", "percent"], 1) => ("percent", Some(self.expr(a[0], &Ty::F32)?.0)),
+                    (["CompactLength", "auto"], 0) => ("auto", None),
+                    _ => return Err(format!("unrecognised length payload `{}`", quote::quote!(#arg))),
+                }
+            }
+            _ => return Err(format!("unrecognised length payload `{}`", quote::quote!(#arg))),
+        };
+        if !has(ctor) {
+            return Err(format!("{an} has no `{ctor}` value"));
+        }
+        Ok((L::App(format!("{lean}.{ctor}"), payload.into_iter().collect()), ty))
+    }
+
     /// `<T as TaffyZero>::ZERO`
     pub fn trait_zero(&self, ty: &Ty) -> R<(L, Ty)> {
-        match self.w.consts.get(&(ty.head(), "TaffyZero::ZERO".to_string())) {
-            Some((l, t, alpha)) if t.compatible(ty) => Ok((L::A(if *alpha { format!("({l} (α := α))") } else { l.clone() }), t.clone())),
-            _ => Err(format!("no translated `TaffyZero::ZERO` for {:?}", ty)),
-        }
+        self.trait_const(&ty.head(), "ZERO", ty).ok_or(format!("no translated `TaffyZero::ZERO` for {:?}", ty))
     }
 
     fn variant_app(&mut self, ctor: String, t: Ty, vargs: &[Ty], args: &[&Expr]) -> R<(L, Ty)> {
